@@ -15,7 +15,8 @@ CONSTANTS OPS,        \* operations enumerated in this run
           SHAPES,     \* mode-size profiles (sequences of naturals)
           RANKS,      \* operand ranks
           EPSEXP,     \* eps = 10^-e for e in EPSEXP
-          GUESS,      \* {"none", "fresh", "big", "alias", "reused"}
+          GUESS,      \* {"none", "fresh", "big", "alias", "reused", "zero", "exact1", "exact2"}; zero: a vanishing guess; exactN: the exact result as the guess and nswp = N
+                      \* (the sweep budget is exhausted: the routine returns from its no-enrichment / final-sweep branch)
           SEEDS,      \* internal RNG seeds
           BACKENDS,   \* {"py"} or {"py", "cpp"}
           PREC, MAXFULL, SOLVER, SYSCLS,  \* amen_solve: preconditioner, max_full, local solver, system class
@@ -46,6 +47,8 @@ Init == /\ expect = [t |-> "none"]
               sc \in SCALES \cup {"unit"} :
              /\ Len(N) >= MinOrder(op)
              /\ (g # "none" => HasGuess(op))
+             /\ (g = "zero" => op \in ProductOps \cup SolveOps \cup {"elementwise_divide", "elementwise_divide_c"})
+             /\ (g \in {"exact1", "exact2"} => op \in ProductOps /\ sc = "unit" /\ be = "py")
              /\ (cx => ComplexOK(op))
              /\ (be = "cpp" => op \in {"fast_matvec", "amen_solve"} /\ ~cx)
              /\ (data = "decay" => op \in ProductOps \cup SolveOps)
